@@ -133,6 +133,8 @@ def _dec_case(res, mask):
             res.violation("roundtrip-decode-encode", case, f"encode(decode({mask})) = {again!r}",
                           "%02x" % mask, again)
         # what a caller does with its result must not change what the next caller gets
+        if not hasattr(out, "symmetric_difference_update"):
+            return  # an immutable result cannot be disturbed by its caller
         try:
             out.symmetric_difference_update(set(D))
             out2 = tools.bit_summary_to_days(mask)
